@@ -22,6 +22,7 @@
 import TypedpyModel.Lemmas.TrustedCtor
 import TypedpyModel.Lemmas.TrustedMap
 import TypedpyModel.Lemmas.Fast
+import TypedpyModel.Lemmas.FastMap
 import TypedpyModel.Lemmas.Mappers
 namespace Typedpy.C10
 open Typedpy
@@ -164,6 +165,19 @@ theorem counterexample_optional_immutable_set :
         | _, _ => false) = true := by
   decide
 
+/-- `Optional[Set[X]]` with a mutable Set is inside the proved region (both option orders): the plain
+    set the trusted instance holds is what the Set option validates and serializes -/
+def cxOptSet : FieldDecl :=
+  mkCls "A" ["m"] [("m", .anyOf [.setOf false (.integer {}) {}, .noneF]), ("n", .anyOf [.noneF, .setOf false (.enumCls "Color" ["RED", "BLUE"]) {}])]
+theorem trusted_optional_set_example :
+    eligible noMappers cxOptSet = true ∧ tsafeCls cxOptSet = true
+    ∧ plainDoc {} cxOptSet (.dict [(.str "m", .list [.int 1, .int 1, .int 2]), (.str "n", .list [.str "RED"])]) = true
+    ∧ (match deserialize exO {} cxOptSet (.dict [(.str "m", .list [.int 1, .int 1, .int 2]), (.str "n", .list [.str "RED"])]),
+             deserializeTrusted noMappers exO {} cxOptSet (.dict [(.str "m", .list [.int 1, .int 1, .int 2]), (.str "n", .list [.str "RED"])]) with
+        | .ok x, .ok y => eqv x y && isOk (serialize exO cxOptSet y)
+        | _, _ => false) = true := by
+  decide
+
 /-- finding `unnormalised:boolean-string`: the regular path turns 'True' into `True` -/
 def cxBool : FieldDecl := mkCls "A" ["m"] [("m", .boolean)]
 theorem counterexample_boolean_string :
@@ -229,29 +243,19 @@ theorem counterexample_float_int :
   rw [h, e1] at e2
   cases e2
 
-/-- finding `none-attribute-hash:set-of-structures`: trusted instances keep a null as an attribute
-    holding None, which `Structure.__hash__` (= hash of `str(self)`) sees but `Structure.__eq__` does
-    not (`PyVal.pyEq` reads an attribute holding None like an absent one): the two elements the
-    trusted path builds are `==` and spelled differently (CPython's set, which buckets by hash, keeps
-    both; the model's sets are keyed by `==` alone and cannot show the two buckets), while the
-    regular path builds two identically spelled elements -/
+/-- fixed `none-attribute-hash:set-of-structures` (c4803f1: equal structures have equal hashes): the
+    trusted instances that keep a null as an attribute holding None are `==` to the ones without it
+    AND hash alike, so `Set[Foo]` collapses them on the trusted path as on the regular path -/
 def fooOpt : FieldDecl := mkCls "Foo" [] [("a", .integer {}), ("b", .integer {})]
 def cxSetStruct : FieldDecl := mkCls "A" ["m"] [("m", .setOf false fooOpt {})]
 def cxSetStructDoc : PyVal :=
   .dict [(.str "m", .list [.dict [(.str "a", .int 1)], .dict [(.str "a", .int 1), (.str "b", .none)]])]
-theorem counterexample_set_of_structures :
+theorem fixed_set_of_structures :
     eligible noMappers cxSetStruct = true
-    ∧ (match deserialize exO {} cxSetStruct cxSetStructDoc with
-        | .ok (.inst _ [(_, .set _ xs)]) => xs.length == 1
-        | _ => false) = true
-    ∧ (match deserialize exO {} fooOpt (.dict [(.str "a", .int 1)]),
-             deserialize exO {} fooOpt (.dict [(.str "a", .int 1), (.str "b", .none)]) with
-        | .ok (.inst _ a1), .ok (.inst _ a2) => a1.length == a2.length
-        | _, _ => false) = true
-    ∧ (match deserializeTrusted noMappers exO {} fooOpt (.dict [(.str "a", .int 1)]),
-             deserializeTrusted noMappers exO {} fooOpt (.dict [(.str "a", .int 1), (.str "b", .none)]) with
-        | .ok (.inst c1 a1), .ok (.inst c2 a2) =>
-            PyVal.pyEq (.inst c1 a1) (.inst c2 a2) && a1.length == 1 && a2.length == 2
+    ∧ (match deserialize exO {} cxSetStruct cxSetStructDoc,
+             deserializeTrusted noMappers exO {} cxSetStruct cxSetStructDoc with
+        | .ok (.inst cx [(nx, .set fx xs)]), .ok (.inst cy [(ny, .set fy ys)]) =>
+            xs.length == 1 && ys.length == 1 && eqv (.inst cx [(nx, .set fx xs)]) (.inst cy [(ny, .set fy ys)])
         | _, _ => false) = true := by
   decide
 
@@ -340,9 +344,11 @@ def from_trusted_statement : Prop :=
 
 /-- **C10 (trusted construction), proved part**: on constructor-valid keyword arguments that are
     already in stored form (`storedKw`: the explicit normalisation side condition — no Float ← int,
-    Boolean ← 'True'/'False', Enum ← member name, StructureReference ← dict, rebuilt Set / Map /
-    positional collection, omitted default, undeclared keyword) `from_trusted_data(mapping)` yields
-    an instance equal to the validated one -/
+    Boolean ← 'True'/'False', Enum ← member name, StructureReference ← dict, omitted default,
+    undeclared keyword; a Set / Map / positional collection the constructor rebuilds is given as a
+    set / frozenset of the field's mutability, a dict with pairwise different string keys, a
+    tuple / list of stored-form elements) `from_trusted_data(mapping)` yields an instance equal to
+    the validated one -/
 theorem from_trusted_equiv_partial (O : Oracles) (cls : FieldDecl) (kw : List (String × PyVal))
     (x : PyVal) (hs : storedKw cls kw = true) (hc : construct O cls kw = .ok x) :
     ∃ y, fromTrustedMap cls kw = .ok y ∧ eqv x y = true := by
@@ -394,6 +400,23 @@ theorem from_trusted_statement_false : ¬ from_trusted_statement := by
 theorem from_trusted_example :
     storedKw exOuter [("kind", .enumv "Color" "RED"), ("items", .list []), ("flags", .list [.bool false])] = true
     ∧ isOk (construct exO exOuter [("kind", .enumv "Color" "RED"), ("items", .list []), ("flags", .list [.bool false])]) = true := by
+  decide
+
+/-- collections the constructor rebuilds, given in stored form, are inside the region: a Set and an
+    ImmutableSet, a fixed-length Tuple, a positional Array with a surplus element, a Map -/
+def cxRebuilt : FieldDecl :=
+  mkCls "A" ["s"] [("s", .setOf false (.integer {}) {}), ("f", .setOf true str0 {}), ("t", .tuplePos [.integer {}, str0] false),
+                   ("p", .seqPos .list [.integer {}] true {}), ("m", .mapOf str0 (.float {}) {})]
+def cxRebuiltKw : List (String × PyVal) :=
+  [("s", .set false [.int 1, .int 2]), ("f", .set true [.str "a"]), ("t", .tuple [.int 1, .str "x"]),
+   ("p", .list [.int 1, .str "surplus"]), ("m", .dict [(.str "k", .float ⟨1, 2⟩)])]
+theorem from_trusted_rebuilt_example :
+    storedKw cxRebuilt cxRebuiltKw = true ∧ isOk (construct exO cxRebuilt cxRebuiltKw) = true
+    ∧ storedKw cxRebuilt [("s", .set true [.int 1])] = true               -- a frozenset for a mutable Set: stays frozen
+    ∧ storedKw cxRebuilt [("s", .set false [.int 1]), ("f", .set false [.str "a"])] = false   -- a plain set for an ImmutableSet
+    ∧ (match construct exO cxRebuilt cxRebuiltKw, fromTrustedMap cxRebuilt cxRebuiltKw with
+        | .ok x, .ok y => eqv x y
+        | _, _ => false) = true := by
   decide
 
 /-! ## 3. fast serialization -/
@@ -464,14 +487,16 @@ theorem fixed_fast_positional_index :
         | _, _ => false) = true := by
   decide
 
-/-- finding `fast:positional-index:deque`: `Deque.serialize` still indexes the item fields by position:
-    a positional Deque with surplus elements raises IndexError -/
+/-- fixed `fast:positional-index:deque`: a positional Deque passes its surplus elements through, like
+    the positional Array -/
 def cxPosDeque : FieldDecl := mkCls "A" ["t"] [("t", .seqPos .deque [.integer {}] true {})]
-theorem counterexample_fast_positional_index_deque :
+theorem fixed_fast_positional_index_deque :
     createOk noMappers [] cxPosDeque = true
     ∧ wellFormed exO cxPosDeque (.inst "A" [("t", .deque [.int 1, .str "x"])]) = true
-    ∧ isOk (serialize exO cxPosDeque (.inst "A" [("t", .deque [.int 1, .str "x"])])) = true
-    ∧ isErr (fastSerialize noMappers [] [] false false cxPosDeque (.inst "A" [("t", .deque [.int 1, .str "x"])])) = true := by
+    ∧ (match serialize exO cxPosDeque (.inst "A" [("t", .deque [.int 1, .str "x"])]),
+             fastSerialize noMappers [] [] false false cxPosDeque (.inst "A" [("t", .deque [.int 1, .str "x"])]) with
+        | .ok (.dict [(_, .list [.int 1, .str "x"])]), .ok (.dict [(_, .list [.int 1, .str "x"])]) => true
+        | _, _ => false) = true := by
   decide
 
 /-- finding `fast:compact-conditions`: `set_compact_wrapper` compacts every one-field class; the
@@ -528,15 +553,12 @@ theorem counterexample_fast_extras :
 
 theorem fast_statement_false : ¬ fast_statement := by
   intro h
-  rcases counterexample_fast_positional_index_deque with ⟨h1, h2, h3, h4⟩
-  have := h exO [] cxPosDeque (.inst "A" [("t", .deque [.int 1, .str "x"])]) false (by decide) h1 h2
-  simp only [serializeCompact, cxPosDeque, mkCls, Bool.false_and, Bool.false_eq_true, if_false] at this
-  simp only [cxPosDeque, mkCls] at h3 h4
-  rw [this] at h4
-  cases hs : serialize exO (.struct { name := "A", required := ["t"], accepts := ["A"] }
-      [("t", .seqPos .deque [.integer {}] true {})] []) (.inst "A" [("t", .deque [.int 1, .str "x"])]) with
-  | ok j => rw [hs] at h4; cases h4
-  | error e => rw [hs] at h3; cases h3
+  rcases counterexample_fast_extras with ⟨h1, h2, h3, h4⟩
+  have := h exO [] cxCompact (.inst "A" [("a", .int 1), ("zz", .int 2)]) false (by decide) h1 h2
+  simp only [serializeCompact, cxCompact, mkCls, Bool.false_and, Bool.false_eq_true, if_false] at this
+  simp only [cxCompact, mkCls] at h3 h4
+  rw [this, h3] at h4
+  cases h4
 
 /-! ### non-vacuity of `fast_equiv_partial` -/
 
@@ -592,44 +614,35 @@ example : mapKey (mapEnvOf [("A", { ser := some .lower, deser := some (.rename [
 
 /-! ## 5. order of first use: a fresh FastSerializable class whose first instance a trusted path makes -/
 
-/-- **C10 (first use), proved part**: the trusted constructor reaches `FastSerializable.__init__`
-    (which installs the class's serializer) once per supplied keyword, so for an instance made
-    from at least one value it does not matter whether the class was instantiated before:
-    `x.serialize()` is the document of the installed serializer -/
-theorem first_use_partial (Mp : MapEnv) (NF JK : List String) (had : Bool) (cls : FieldDecl) (x : PyVal)
-    (h : (attrsOf x).isEmpty = false) :
+/-- **C10 (first use)**: the trusted constructor reaches `FastSerializable.__init__` (which installs
+    the class's serializer) once per instance, so `x.serialize()` of a trusted-built instance is the
+    document of the installed serializer whether or not the class was instantiated before -/
+theorem first_use_partial (Mp : MapEnv) (NF JK : List String) (had : Bool) (cls : FieldDecl) (x : PyVal) :
     fastSerializeFirst Mp NF JK had cls x = fastSerialize Mp NF JK false false cls x := by
-  simp [fastSerializeFirst, installedAfterTrustedInit, h]
-
-/-- … and on a class that already has its serializer the history never matters -/
-theorem first_use_warm (Mp : MapEnv) (NF JK : List String) (cls : FieldDecl) (x : PyVal) :
-    fastSerializeFirst Mp NF JK true cls x = fastSerialize Mp NF JK false false cls x := by
   simp [fastSerializeFirst, installedAfterTrustedInit]
+
+theorem first_use_warm (Mp : MapEnv) (NF JK : List String) (cls : FieldDecl) (x : PyVal) :
+    fastSerializeFirst Mp NF JK true cls x = fastSerialize Mp NF JK false false cls x :=
+  first_use_partial Mp NF JK true cls x
 
 /-- the statement at full strength (history independence for every trusted-built instance) -/
 def first_use_statement : Prop :=
   ∀ (Mp : MapEnv) (NF JK : List String) (cls : FieldDecl) (x : PyVal),
     fastSerializeFirst Mp NF JK false cls x = fastSerializeFirst Mp NF JK true cls x
 
-/-- finding `first-use-order:no-values`: an instance made from no values leaves a fresh class
-    without its serializer: `serialize()` raises NotImplementedError where the warm class (and the
-    regular path) return `{}` -/
+/-- … which holds since the repair of `first-use-order:no-values` -/
+theorem first_use_history_independent : first_use_statement := by
+  intro Mp NF JK cls x
+  rw [first_use_partial, first_use_partial]
+
+/-- fixed `first-use-order:no-values`: an instance made from no values gets the serializer too -/
 def cxFirstUse : FieldDecl := mkCls "A" [] [("a", .integer {})]
-theorem counterexample_first_use_no_values :
+theorem fixed_first_use_no_values :
     createOk noMappers [] cxFirstUse = true
-    ∧ isErr (fastSerializeFirst noMappers [] [] false cxFirstUse (.inst "A" [])) = true
+    ∧ isDictDoc (fastSerializeFirst noMappers [] [] false cxFirstUse (.inst "A" [])) = true
     ∧ isDictDoc (fastSerializeFirst noMappers [] [] true cxFirstUse (.inst "A" [])) = true
     ∧ isDictDoc (serialize exO cxFirstUse (.inst "A" [])) = true := by
   decide
-
-theorem first_use_statement_false : ¬ first_use_statement := by
-  intro h
-  have h1 := counterexample_first_use_no_values.2.1
-  have h2 := counterexample_first_use_no_values.2.2.1
-  rw [h noMappers [] [] cxFirstUse (.inst "A" [])] at h1
-  cases hx : fastSerializeFirst noMappers [] [] true cxFirstUse (.inst "A" []) with
-  | ok v => rw [hx] at h1; cases h1
-  | error e => rw [hx] at h2; cases h2
 
 /-- non-vacuity: a trusted-built instance with values on a fresh class serializes as on a warm one -/
 theorem first_use_example :
@@ -779,5 +792,95 @@ theorem mapper_inherited_twice_rename (d : List (String × String)) (f : String)
   cases h : lookupLast f d with
   | none => simp [Mappers.applyKey, c10_lookupR_rename, MapperDecl.resolved, mapKey, h]
   | some t => simp [MapperDecl.resolved, mapKey, h]
+
+/-! ## 7. key-renaming mappers: fast ≡ regular -/
+
+/-- **a class's mapper renames that class's own keys only** (at every class level of a tree, for
+    every class, instance and flag): the entries the installed serializer builds with mapper `m` are
+    the entries it builds without a mapper, with the keys renamed by `m` — nothing reaches the nested
+    classes (the regular path lets TO_CAMELCASE / TO_LOWERCASE reach them: finding `fast:mapper-cascade`) -/
+theorem fast_mapper_own_keys (Mp : MapEnv) (NF JK : List String) (sn : Bool) (m : TMapper)
+    (ds attrs : List (String × PyVal)) (fields : List (String × FieldDecl)) :
+    fFields Mp NF JK sn m ds attrs fields
+      = bindE (fFields Mp NF JK sn .none ds attrs fields) fun r => .ok (relabelPairs m r) :=
+  c10_fFields_relabel Mp NF JK sn m ds attrs fields
+
+/-- a mapper that is injective on the class's fields loses no getter (`processed_mapper[mapped_key] =
+    getter` never overwrites): the document has one entry per non-None field -/
+theorem fast_mapper_injective_keeps_all (Mp : MapEnv) (NF JK : List String) (sn : Bool) (m : TMapper)
+    (ds attrs : List (String × PyVal)) (fields : List (String × FieldDecl)) (r : List (PyVal × PyVal))
+    (hn : strNodup (fields.map fun p => mapKey m p.1) = true)
+    (h : fFields Mp NF JK sn m ds attrs fields = .ok r) : keyDedupe m r = r :=
+  c10_keyDedupe_id Mp NF JK sn m ds attrs fields r hn h
+
+/-- **C10 (fast serialization WITH a mapper), proved part**: for every class of the region
+    `fsafeCls` with a simple mapper (NO_MAPPER / TO_CAMELCASE / TO_LOWERCASE / a rename dict) that is
+    injective on its fields and whose nested classes have no mapper (`mfreeFields`), and every
+    instance of the stored shape, the installed `serialize()` returns the regular document of the
+    identically declared mapper-free class with this class's keys renamed by the mapper — the keys
+    `aggregate_serialization_mappers` resolves (`trusted_key_is_regular_key` with `forSer := true`). -/
+theorem fast_mapper_equiv_partial (O : Oracles) (JK : List String) (Mp : MapEnv) (c : ClassOpts)
+    (fields : List (String × FieldDecl)) (ds : List (String × PyVal)) (x : PyVal)
+    (hs : fsafeCls [] (.struct c fields ds) = true) (hw : fwf O (.struct c fields ds) x = true)
+    (hfree : mfreeFields Mp fields = true)
+    (hinj : strNodup (fields.map fun p => mapKey (Mp c.name) p.1) = true) :
+    fastSerialize Mp [] JK false false (.struct c fields ds) x
+      = bindE (serialize O (.struct c fields ds) (canonV (.struct c fields ds) x)) (relabelDoc (Mp c.name)) :=
+  c10_fast_outer_mapper O JK Mp c fields ds x hs hw hfree hinj
+
+/-- non-vacuity: TO_CAMELCASE on a class with a nested mapper-free class and an Array of them -/
+def exFastMapInner : FieldDecl := mkCls "In" ["first_name"] [("first_name", str0), ("age", .integer {})]
+def exFastMapOuter : FieldDecl :=
+  mkCls "Out" ["the_one"] [("the_one", exFastMapInner), ("all_of", .seqOf .list exFastMapInner {}), ("n_n", .integer {})]
+def exFastMapEnv : MapEnv := fun n => if n == "Out" then .camel else .none
+def exFastMapX : PyVal :=
+  .inst "Out" [("the_one", .inst "In" [("first_name", .str "a")]), ("all_of", .list [.inst "In" [("first_name", .str "b"), ("age", .int 1)]]),
+               ("n_n", .int 2)]
+theorem fast_mapper_example :
+    fsafeCls [] exFastMapOuter = true ∧ fwf exO exFastMapOuter exFastMapX = true
+    ∧ (match exFastMapOuter with | .struct _ fs _ => mfreeFields exFastMapEnv fs | _ => false) = true
+    ∧ docHas "theOne" (fun _ => true) (fastSerialize exFastMapEnv [] [] false false exFastMapOuter exFastMapX) = true
+    ∧ docHas "allOf" (fun _ => true) (fastSerialize exFastMapEnv [] [] false false exFastMapOuter exFastMapX) = true
+    ∧ docHas "nN" (fun _ => true) (fastSerialize exFastMapEnv [] [] false false exFastMapOuter exFastMapX) = true
+    ∧ docHas "n_n" (fun _ => true) (fastSerialize exFastMapEnv [] [] false false exFastMapOuter exFastMapX) = false := by
+  decide
+
+/-- **C10 (fast serialization WITH one simple mapper per class, at any depth), proved part**: for
+    every class tree of the region `fsafeCls` in which every class has a simple mapper that is injective
+    on its fields (`fmsafeD`: classes with mappers directly in fields, in Array / Deque / Set / Tuple[X]
+    items and in Optionals; mapper-free inside Map values and positional items) and every instance of
+    the stored shape, the installed `serialize()` returns the regular document of the identically
+    declared mapper-free class tree with the keys of every class-level object renamed by that
+    class's own mapper (`relV`) -/
+theorem fast_mapper_full_equiv_partial (O : Oracles) (JK : List String) (Mp : MapEnv) (cls : FieldDecl) (x : PyVal)
+    (hs : fsafeCls [] cls = true) (hw : fwf O cls x = true) (hm : fmsafeD Mp cls = true) :
+    fastSerialize Mp [] JK false false cls x
+      = bindE (serialize O cls (canonV cls x)) fun j => .ok (relV Mp cls j) :=
+  c10_fast_full_mapper O JK Mp cls x hs hw hm
+
+/-- non-vacuity: a rename dict on the outer class, TO_CAMELCASE on the nested one (also inside an
+    Array and an Optional): each level is written with its own keys -/
+def exFastFullInner : FieldDecl := mkCls "In" ["first_name"] [("first_name", str0), ("age", .integer {})]
+def exFastFullOuter : FieldDecl :=
+  mkCls "Out" ["the_one"] [("the_one", exFastFullInner), ("all_of", .seqOf .list exFastFullInner {}),
+                           ("maybe", .anyOf [exFastFullInner, .noneF]), ("n_n", .integer {})]
+def exFastFullEnv : MapEnv := fun n =>
+  if n == "Out" then .rename [("the_one", "one"), ("n_n", "count")] else if n == "In" then .camel else .none
+def exFastFullX : PyVal :=
+  .inst "Out" [("the_one", .inst "In" [("first_name", .str "a")]),
+               ("all_of", .list [.inst "In" [("first_name", .str "b"), ("age", .int 1)]]), ("n_n", .int 2)]
+def innerHas (k inner : String) (r : R PyVal) : Bool :=
+  match r with
+  | .ok (.dict kvs) => kvs.any fun kv => (match kv.1, kv.2 with
+      | .str s, .dict ikvs => s == k && ikvs.any (fun p => match p.1 with | .str t => t == inner | _ => false)
+      | _, _ => false)
+  | _ => false
+theorem fast_mapper_full_example :
+    fsafeCls [] exFastFullOuter = true ∧ fwf exO exFastFullOuter exFastFullX = true
+    ∧ fmsafeD exFastFullEnv exFastFullOuter = true
+    ∧ docHas "count" (fun _ => true) (fastSerialize exFastFullEnv [] [] false false exFastFullOuter exFastFullX) = true
+    ∧ innerHas "one" "firstName" (fastSerialize exFastFullEnv [] [] false false exFastFullOuter exFastFullX) = true
+    ∧ innerHas "one" "first_name" (fastSerialize exFastFullEnv [] [] false false exFastFullOuter exFastFullX) = false := by
+  decide
 
 end Typedpy.C10
